@@ -49,6 +49,9 @@ for m in sorted(glob.glob(os.path.join(HERE, "seeded", "*", "meta.json"))):
     out.append("| %s | %s | %s | %s |" % (name, (d.get("summary") or "").replace("|", "/")[:220],
                                           (d.get("needs") or "").replace("|", "/")[:200], res))
 out.append("")
+fa = os.path.join(HERE, "notes", "design", "false_alarms.md")
+if os.path.exists(fa):
+    out += [open(fa).read().strip(), ""]
 for p in sorted(glob.glob(os.path.join(HERE, "notes", "design", "C*.md"))):
     text = open(p).read().strip()
     text = re.sub(r"^# ", "### 10." + os.path.basename(p)[1:3].lstrip("0") + "+1 ".replace("+1 ", " "), text, count=1, flags=re.M) if False else text
